@@ -21,6 +21,11 @@ pub struct Case {
     pub h: i32,
     pub init: Vec<u32>,
     pub kind: Kind,
+    /// fill_rect cases only: run every route inside a layer that was pushed under this clip rectangle, the clip
+    /// being popped again before the draw (the layer is then narrower than the surface while the clip stack is
+    /// empty, so fill_rect still takes its fast path, into the layer)
+    #[serde(default)]
+    pub in_layer: Option<(i32, i32, i32, i32)>,
 }
 
 fn diff(a: &[u32], b: &[u32], w: i32) -> Option<String> {
@@ -35,7 +40,22 @@ fn diff(a: &[u32], b: &[u32], w: i32) -> Option<String> {
 pub fn check(c: &Case) -> CheckResult {
     let mut o = Outcome::new();
     o.fp = fp_of(c);
-    let fresh = || new_target(c.w, c.h, &c.init);
+    let in_layer = if matches!(c.kind, Kind::Rect { .. }) { c.in_layer } else { None };
+    let fresh = || {
+        let mut t = new_target(c.w, c.h, &c.init);
+        if let Some((x1, y1, x2, y2)) = in_layer {
+            t.push_clip_rect(irect(x1, y1, x2, y2));
+            t.push_layer(1.0);
+            t.pop_clip();
+        }
+        t
+    };
+    let finish = |t: &mut DrawTarget| {
+        if in_layer.is_some() {
+            t.pop_layer();
+        }
+    };
+    o.class_if(in_layer.is_some(), "inside-narrow-layer-with-empty-clip-stack");
     match &c.kind {
         Kind::Rect { x, y, rw, rh, src, opts } => {
             let (xf, yf, wf, hf) = (*x as f32, *y as f32, *rw as f32, *rh as f32);
@@ -43,22 +63,26 @@ pub fn check(c: &Case) -> CheckResult {
             // A: fast path
             let mut a = fresh();
             src.with(|s| a.fill_rect(xf, yf, wf, hf, s, &dopts));
+            finish(&mut a);
             // B: path route
             let mut b = fresh();
             let mut pb = PathBuilder::new();
             pb.rect(xf, yf, wf, hf);
             let path = pb.finish();
             src.with(|s| b.fill(&path, s, &dopts));
+            finish(&mut b);
             // C: under a surface-covering clip rect
             let mut cc = fresh();
             cc.push_clip_rect(irect(0, 0, c.w, c.h));
             src.with(|s| cc.fill_rect(xf, yf, wf, hf, s, &dopts));
             cc.pop_clip();
+            finish(&mut cc);
             // D: under a larger-than-surface clip rect
             let mut d = fresh();
             d.push_clip_rect(irect(-5, -5, c.w + 5, c.h + 5));
             src.with(|s| d.fill_rect(xf, yf, wf, hf, s, &dopts));
             d.pop_clip();
+            finish(&mut d);
             let (pa, pb_, pc, pd) = (a.get_data(), b.get_data(), cc.get_data(), d.get_data());
             if let Some(m) = diff(pa, pb_, c.w) {
                 return Err(format!("fill_rect (no clip, identity) differs from fill(PathBuilder::rect): {} [fill_rect vs path]", m));
@@ -158,9 +182,11 @@ pub fn strategy(ctx: &Ctx) -> BoxedStrategy<Case> {
             let clear = px_premul().prop_map(|color| Kind::Clear { color });
             let img_spec = if w > 256 { prop_oneof![1 => image_spec(6, 6), 2 => (257i32..=300, 1i32..=2).prop_flat_map(|(iw, ih)| prop::collection::vec(px_premul(), (iw * ih) as usize).prop_map(move |data| ImageSpec { w: iw, h: ih, data }))].boxed() } else { image_spec(6, 6) };
             let image = (-6..=w.min(12) + 2, -6..=h.min(12) + 2, img_spec, opts_any()).prop_map(|(x, y, img, opts)| Kind::Image { x, y, img, opts });
-            (Just(w), Just(h), init_pixels(w, h), prop_oneof![8 => rect, 1 => clear, 2 => image])
+            // one case in eight runs inside a layer narrower than the surface (clip popped again before the draw)
+            let lay = prop::option::weighted(0.125, (0..=w.min(12) / 2, 0..=h.min(12) / 2, 1..=(w.min(12) / 2).max(1), 1..=(h.min(12) / 2).max(1)).prop_map(move |(x, y, dw, dh)| (x, y, (x + dw + 1).min(w), (y + dh + 1).min(h))));
+            (Just(w), Just(h), init_pixels(w, h), prop_oneof![8 => rect, 1 => clear, 2 => image], lay)
         })
-        .prop_map(|(w, h, init, kind)| Case { w, h, init, kind })
+        .prop_map(|(w, h, init, kind, lay)| Case { w, h, init, kind, in_layer: lay })
         .boxed()
 }
 
@@ -168,10 +194,10 @@ pub fn property(ctx: &Ctx) -> Property {
     let c = ctx.clone();
     Property {
         id: "C14",
-        rule: "cases: integer rectangles (origin in [-4,w+4], sizes in [-3,w+6] incl. zero and negative) on 1..12 px surfaces (one in twenty-five 257..330 px long or tall, with images up to 300 px wide) with random non-empty premultiplied contents, all 28 blend modes, solid/image/gradient sources, alpha in [0,1], AA and aliased; plus clear(c) and draw_image_at at integer positions. Oracle: bit-exact differential between four routes (fill_rect fast path; fill(PathBuilder::rect); fill_rect under a surface-covering clip rect; under a larger clip rect); clear under clip vs not; draw_image_at vs fill with translated image. Non-trivial: rectangle covers part but not all of the surface and (mode != SrcOver or source not an opaque solid at alpha 1); distinct by hash of the case.",
+        rule: "cases: integer rectangles (origin in [-4,w+4], sizes in [-3,w+6] incl. zero and negative) on 1..12 px surfaces (one in twenty-five 257..330 px long or tall, with images up to 300 px wide) with random non-empty premultiplied contents, all 28 blend modes, solid/image/gradient sources, alpha in [0,1], AA and aliased; plus clear(c) and draw_image_at at integer positions. Oracle: bit-exact differential between four routes (fill_rect fast path; fill(PathBuilder::rect); fill_rect under a surface-covering clip rect; under a larger clip rect), one case in eight with all routes running inside a layer that was pushed under a small clip rectangle popped again before the draw (layer narrower than the surface, clip stack empty); clear under clip vs not; draw_image_at vs fill with translated image. Non-trivial: rectangle covers part but not all of the surface and (mode != SrcOver or source not an opaque solid at alpha 1); distinct by hash of the case.",
         assumptions: vec!["the general route (rasterised rectangle + mask blitters) is itself judged by C01/C02/C03"],
         parts: vec![part("routes", 250_000, 4_000_000, move || strategy(&c), check)],
-        min_class_fraction: vec![("routes", "rect-partly-covers-surface", 0.3), ("routes", "non-srcover", 0.5), ("routes", "negative-size", 0.05), ("routes", "rect-off-surface", 0.2), ("routes", "span-beyond-256-with-varying-source", 0.001)],
+        min_class_fraction: vec![("routes", "rect-partly-covers-surface", 0.3), ("routes", "non-srcover", 0.5), ("routes", "negative-size", 0.05), ("routes", "rect-off-surface", 0.2), ("routes", "span-beyond-256-with-varying-source", 0.001), ("routes", "inside-narrow-layer-with-empty-clip-stack", 0.05)],
         panic_is_violation: false,
     }
 }
